@@ -191,6 +191,8 @@ static Wire write_fault(Reader& r) {
         switch (kind) {
         case 0: { Vector v(n); for (U i=0;i<n;++i) v(i)=1.0+i; v.save(path); break; }
         case 1: { Matrix M(n,n+1); for (size_t i=0;i<M.size();++i) M.data()[i]=1.0+i; M.save(path); break; }
+        case 4: { Matrix M(2,n); for (size_t i=0;i<M.size();++i) M.data()[i]=1.0+i; M.save(path); break; }      // wide: lines longer than the stream buffer
+        case 5: { Matrix M(n,2); for (size_t i=0;i<M.size();++i) M.data()[i]=1.0+i; M.save(path); break; }      // tall
         case 2: { SymMatrix S(n); for (size_t i=0;i<S.size();++i) S.data()[i]=1.0+i; S.save(path); break; }
         case 3: { SparseMatrix S(n,n); for (U i=0;i<n;++i) S(i,(i*7)%n)=1.0+i; S.save(path); break; }
         default: return Wire{-1};
@@ -210,6 +212,7 @@ static Wire write_fault(Reader& r) {
 static Wire writer_fault(Reader& r) {
     static const char* sfx[]={"tri","bnd","off","mesh","vtk","geom","sens"};
     ll w=r.z(), k=r.z(); if (w<0 || w>6) return Wire{-1};
+    const bool big = !r.done() && r.z()==1;               // large model (files above the 8 KB stream buffer)
     std::string path=std::string("mw_out.")+sfx[w];
     unlink(path.c_str()); rmdir(path.c_str());
     if (k==-1) { if (symlink("/dev/full",path.c_str())!=0) return Wire{-1}; }
@@ -217,7 +220,8 @@ static Wire writer_fault(Reader& r) {
     if (k==-4) { FILE* f=fopen("mw_regular_file","w"); if (f) fclose(f); path=std::string("mw_regular_file/")+path; }
     if (k==-5) { mkdir(path.c_str(),0755); }
     struct rlimit old; getrlimit(RLIMIT_FSIZE,&old);
-    Geometry& g=geom();                                 // loaded before the limit applies
+    static Geometry* gl=nullptr; if (big && !gl && getenv("C18_GEOM_L")) { gl=new Geometry(); gl->load(getenv("C18_GEOM_L"),getenv("C18_COND_L")); }
+    Geometry& g=(big && gl) ? *gl : geom();             // loaded before the limit applies
     static Sensors* sens=nullptr; if (!sens && getenv("C18_SENSORS")) sens=new Sensors(getenv("C18_SENSORS"));
     if (k>=0) { struct rlimit lim=old; lim.rlim_cur=(rlim_t)k; setrlimit(RLIMIT_FSIZE,&lim); }
     Wire out=guarded([&]()->Wire {
